@@ -383,7 +383,7 @@ def run(rep, tier="quick", srcdir=None, only=None):
 
 
 MANIFEST = {
-    "technique": "dominating-condition (edge dominance) and reachability rules over the LLVM IR of source.c / event.c with staleness tracking of flag loads",
+    "technique": "dominating-condition (edge dominance) and reachability rules over the LLVM IR of source.c / event.c with staleness tracking of flag loads + concrete evaluation of the epoll unregistration over (readers left, writers left, disarmed mask) + value identity between the tested and the waited-on flags word",
     "level": "the cancel transition and its wakeup flags, the freshness of the cancellation check guarding the event-handler latch, the guards of the cancel "
              "callout and of re-arming, the unregister ordering and the activation obligation of cancel_and_wait are decided structurally; races with event "
              "delivery on the manager thread are covered only through this flag/guard structure, not as an exhaustive interleaving argument",
